@@ -2,7 +2,7 @@
 From Coq Require Import List ZArith NArith Bool.
 From C33 Require Import Lib.Harness C01.Keys C01.Model C01.Store C01.Spec C01.Inv
   C01.Proofs C01.ProofsStore C01.ProofsAvl C01.ProofsRange C01.ProofsTop C01.ProofsReads
-  C01.ProofsRemove.
+  C01.ProofsRemove C01.ProofsOps.
 Import ListNotations.
 Open Scope Z_scope.
 
@@ -133,6 +133,22 @@ Theorem C01_versioned_map : forall bs i j, (i <= j)%nat ->
 Proof. exact versioned_map. Qed.
 Print Assumptions C01_versioned_map.
 
+(** The same for histories that mix write batches and DelKVPair batches. *)
+Theorem C01_versioned_map_ops : forall ops i j, (i <= j)%nat ->
+  exists di ri dj rj,
+    history_ops (firstn i ops) = Some (di, ri) /\
+    history_ops (firstn j ops) = Some (dj, rj) /\
+    (forall k, get_at dj ri k = Some (sget (state_ops (firstn i ops)) k)) /\
+    (forall lim start endk asc incl,
+        range_at dj ri lim start endk asc incl =
+        Some (srange_lim lim (state_ops (firstn i ops)) start endk asc incl)).
+Proof. exact versioned_map_ops. Qed.
+Print Assumptions C01_versioned_map_ops.
+
+Theorem C01_state_ops_sorted : forall ops, ksorted (state_ops ops).
+Proof. exact state_ops_sorted. Qed.
+Print Assumptions C01_state_ops_sorted.
+
 (** Non-vacuity. *)
 From Coq Require Strings.String.
 Import Coq.Strings.String.StringSyntax.
@@ -164,6 +180,17 @@ Definition ex_history : list batch :=
   [ [(bs "k1", bs "v1"); (bs "k2", bs "v2"); (bs "", bs "e")];
     [(bs "k1", bs "w1"); (bs "k0", bs "v0")];
     [(bs "k2", bs "x2")] ].
+
+Example C01_ex_ops_reads :
+  let ops := [OSet [(bs "a", bs "1"); (bs "b", bs "2"); (bs "c", bs "3")]; ODel [bs "b"]; OSet [(bs "b", bs "9")]] in
+  match history_ops ops, history_ops (firstn 2 ops), history_ops (firstn 1 ops) with
+  | Some (d3, r3), Some (_, r2), Some (_, r1) =>
+      get_at d3 r1 (bs "b") = Some (Some (bs "2")) /\
+      get_at d3 r2 (bs "b") = Some None /\
+      get_at d3 r3 (bs "b") = Some (Some (bs "9"))
+  | _, _, _ => False
+  end.
+Proof. vm_compute. repeat split; reflexivity. Qed.
 
 Example C01_ex_history_reads :
   match history ex_history, history (firstn 1 ex_history) with
